@@ -410,7 +410,7 @@ func C11(c *Ctx) {
 	r.Explanation = "(A3, guarded ordering) whenever the stored deposit is positive, the settlement claim precedes: the store of a new FlowRate, the refund on cancel, and — for an expired stream — the deposit transfer of a top-up; LastOutflowTime is written only by the claim step and at creation, both with the block time (A4); " +
 		"(A2) stream creation is guarded by not(duration < 60) in the handler and in ValidateBasic, with duration computed from the message's deposit and flow rate; " +
 		"(A9, sink-scoped hazard inventory) in every stream function reachable from the stream MsgServer: no floating-point operation or conversion; every int64*int64 and Duration*Duration product and every int64→uint64 conversion of a computed value is an obligation that must be range-guarded. The payout formula itself is numeric and not decided."
-	r.Rules = []string{"A3.settle-before-change", "A4.last-outflow-writers", "A2.min-duration", "A7.elapsed-seconds", "A9.float", "A9.int-mul", "A9.duration-mul", "A9.narrowing"}
+	r.Rules = []string{"A3.settle-before-change", "A4.last-outflow-writers", "A2.min-duration", "A7.stream-fields", "A7.elapsed-seconds", "A9.float", "A9.int-mul", "A9.duration-mul", "A9.narrowing"}
 	r.Trusted = []string{"time.Time arithmetic", "sdk.Int arbitrary precision"}
 	r.NotDecided = []string{"min(remaining, rate x seconds) payout formula", "deposit-zero-time formula", "sufficiency of the remaining deposit until the advertised time"}
 
@@ -511,6 +511,7 @@ func C11(c *Ctx) {
 		}
 	}
 	minDuration(c)
+	streamFields(c)
 	elapsedSeconds(c)
 	streamHazards(c)
 }
@@ -883,4 +884,56 @@ func panicGuard(c *Ctx, f *ssa.Function, call *ssa.Call, e *ir.Expr, kind string
 		}, 0)
 	}
 	return false
+}
+
+// streamFields: what creation and the flow-rate update store: FlowRate is the message's, the
+// new stream starts with a zero deposit in the message's denomination and the block time as
+// last outflow; the deposit-zero time stored by a top-up / rate change is (now | old zero time)
+// + CalculateDuration(deposit, rate) seconds.
+func streamFields(c *Ctx) {
+	r := c.R
+	for _, method := range []string{"CreateStream", "UpdateFlowRate"} {
+		h := handlerOf(c, "stream", method)
+		if h == nil {
+			r.Undecided("A7.stream-fields", method, "", "handler found", "missing")
+			continue
+		}
+		n := 0
+		for _, in := range storeStructs(c, h, secStreams) {
+			st := in.E
+			if st == nil || st.Op != "struct" {
+				continue
+			}
+			fr := fieldOfStruct(st, "FlowRate")
+			if fr == nil {
+				continue
+			}
+			// writers that keep the stored rate (claim, deposit add) are fine; a changed rate must be the message's
+			keeps := streamFieldX(c, fr, "FlowRate")
+			if !keeps {
+				n++
+				r.Require(isMsgField(fr, "FlowRate"), "A7.stream-fields", method+"|FlowRate|"+fn(in.Eff.Fn), pos(c, in.Eff.Site), "a stored flow rate that differs from the loaded one is msg.FlowRate", "FlowRate = "+fr.String())
+			}
+			if method == "CreateStream" {
+				dep := fieldOfStruct(st, "Deposit")
+				if dep != nil && calleeIs(dep, "types.NewCoin") && len(dep.Args) == 2 {
+					d := dep.Args[0]
+					okd := d.Op == "field" && d.Name == "Denom" && isMsgField(d.Args[0], "Deposit") && isZeroInt(dep.Args[1])
+					r.Require(okd, "A7.stream-fields", method+"|Deposit|"+fn(in.Eff.Fn), pos(c, in.Eff.Site), "a new stream starts with a zero deposit in the denomination of msg.Deposit", "Deposit = "+dep.String())
+				}
+			}
+			if zt := fieldOfStruct(st, "DepositZeroTime"); zt != nil {
+				zt.Walk(func(x *ir.Expr) bool {
+					if calleeIs(x, "types.CalculateDuration") && len(x.Args) == 2 {
+						depOK := isMsgField(x.Args[0], "Deposit") || streamFieldX(c, x.Args[0], "Deposit") || x.Args[0].Op == "param"
+						rateOK := isMsgField(x.Args[1], "FlowRate") || streamFieldX(c, x.Args[1], "FlowRate")
+						r.Require(depOK && rateOK, "A7.stream-fields", method+"|zero-time-duration|"+fn(in.Eff.Fn), pos(c, in.Eff.Site), "the duration added to the deposit-zero time is CalculateDuration(deposit added or remaining, the stream's flow rate)", x.String())
+						return false
+					}
+					return true
+				})
+			}
+		}
+		r.Floor("stream writes changing the flow rate via "+method, n, 1)
+	}
 }
